@@ -28,7 +28,8 @@ func TestMain(m *testing.M) {
 		"to Deduplicator.Middleware and to the PublisherDecorator, hashers Adler32/SHA256 with read limits {<64, 64, 100, MaxInt64} and the metadata-field hasher; key classes are computed by an independent reference hash. "+
 		"Oracle: per key class exactly one presentation reaches the handler / inner publisher, all others are dropped as successes (acked) without invoking it; different keys never suppress each other; "+
 		"retention: a re-presentation that ends before first start + window is a duplicate, and the key is accepted again after expiry (bounded wait); hasher laws against the reference hash. "+
-		"Non-trivial: a key class is presented by >=2 goroutines concurrently, or the case exercises expiry. Distinct by canonical case encoding.")
+		"Non-trivial: a key class is presented by >=2 goroutines concurrently, or the case exercises expiry. Distinct by canonical case encoding."+
+		" Presentations may share UUIDs from a pool of 1..2 (the UUID is no part of any key).")
 	lib.Extra("assumptions", []string{
 		"Adler-32 collisions are documented: classes are formed by the reference Adler-32 of the limited payload, not by payload equality",
 		"repositories cannot be stopped (one ticker goroutine each): concurrency cases use one long-window repository per case (parked ticker), expiry cases are capped per process",
